@@ -230,7 +230,7 @@ pub static C09: Profile = Profile {
     raw: raw4,
     build: c09_build,
     check: c09_check,
-    budget: Budget { r_cases: (1500, 20000), s_cases: (3000, 20000), s_scheds: (16, 64) },
+    budget: Budget { r_cases: (3000, 20000), s_cases: (6000, 20000), s_scheds: (16, 64) },
     liveness: true,
     enumerate: None,
     extra: None,
@@ -250,7 +250,14 @@ pub fn c10_build(raw: &Raw, _tier: Tier, _sched: bool) -> Scenario {
     let ccap = SMALL_CAPS[pick(knob(raw, 2), SMALL_CAPS.len())];
     let cpol = POLS[pick(knob(raw, 3), 3)];
     let d1 = b.sub(SubKind::Direct);
-    let c = b.sub(SubKind::Channeled { cap: ccap, pol: cpol, default_ctor: false });
+    // the default constructor subscribed() = capacity 16, blocking
+    let use_default = cpol == Pol::Block && knob(raw, 15) % 4 == 0;
+    let (ccap, c) = if use_default {
+        (16, b.sub(SubKind::Channeled { cap: 16, pol: Pol::Block, default_ctor: true }))
+    } else {
+        (ccap, b.sub(SubKind::Channeled { cap: ccap, pol: cpol, default_ctor: false }))
+    };
+    let _ = ccap;
     let d2 = b.sub(SubKind::Direct);
     let gated = knob(raw, 4) % 2 == 0;
     let g = if gated {
@@ -292,18 +299,27 @@ pub fn c10_build(raw: &Raw, _tier: Tier, _sched: bool) -> Scenario {
         }
     }
     // terminator: unsubscribe(C) at a generated point (or leave it to the final stop)
-    let term = if held { 0 } else { knob(raw, 7) % 3 };
+    let term = if held { 0 } else { knob(raw, 7) % 4 };
     if term != 0 {
         let t = b.thread();
         let lead = pick(knob(raw, 8), 5);
         for i in 0..lead {
             b.s.threads[t].push(Op::Stall(stall_of(knob(raw, 9).wrapping_add(i as u16 * 3))));
         }
-        if term == 1 {
+        if term == 1 || term == 3 {
             b.s.threads[t].push(Op::Unsubscribe { store: s, sub: c });
             b.s.threads[t].push(Op::Unsubscribe { store: s, sub: c });
         } else {
             b.s.threads[t].push(Op::Stop { store: s, via_trait: false });
+        }
+        if term == 3 {
+            // unsubscribe(C) on one thread racing stop() on another: both are barriers for C
+            let t2 = b.thread();
+            let lead = pick(knob(raw, 15), 5);
+            for i in 0..lead {
+                b.s.threads[t2].push(Op::Stall(stall_of(knob(raw, 14).wrapping_add(i as u16 * 5))));
+            }
+            b.s.threads[t2].push(Op::Stop { store: s, via_trait: false });
         }
     }
     if let (Some(g), Some(dg)) = (g, done) {
@@ -373,16 +389,19 @@ pub fn c10_check(scn: &Scenario, h: &History) -> Outcome {
     // stream relations
     let acts1: Vec<(ActId, St)> = s1.iter().map(|x| (x.0, x.1)).collect();
     let actsc: Vec<(ActId, St)> = sc.iter().map(|x| (x.0, x.1)).collect();
-    let barrier = iv.unsub_ret.or(sd.first_stop_ret).unwrap_or(usize::MAX);
     let word = if iv.unsub_ret.is_some() { "unsubscribe()" } else { "stop()" };
-    for (a, _, pos) in &sc {
-        if *pos > barrier {
-            out.viol(format!("channeled subscriber {} was called for action {} at @{} after {} had returned at @{}", c, a, pos, word, barrier));
+    // both its own unsubscribe() and the store's stop() are barriers for C (whichever returned)
+    for (barrier, what) in [(iv.unsub_ret, "unsubscribe()"), (sd.first_stop_ret, "stop()")] {
+        let Some(barrier) = barrier else { continue };
+        for (a, _, pos) in &sc {
+            if *pos > barrier {
+                out.viol(format!("channeled subscriber {} was called for action {} at @{} after {} had returned at @{}", c, a, pos, what, barrier));
+            }
         }
-    }
-    for (pos, r) in h.recs.iter().enumerate() {
-        if matches!(&r.ev, Ev::NotOut { sub, .. } if *sub == c) && pos > barrier {
-            out.viol(format!("channeled subscriber {} was still inside on_notify at @{} after {} had returned at @{}", c, pos, word, barrier));
+        for (pos, r) in h.recs.iter().enumerate() {
+            if matches!(&r.ev, Ev::NotOut { sub, .. } if *sub == c) && pos > barrier {
+                out.viol(format!("channeled subscriber {} was still inside on_notify at @{} after {} had returned at @{}", c, pos, what, barrier));
+            }
         }
     }
     // in-order subsequence of the direct stream (all policies), with identical (state, action) pairs
@@ -462,6 +481,9 @@ pub fn c10_check(scn: &Scenario, h: &History) -> Outcome {
     });
     if iv.unsub_inv.is_some() {
         out.class("unsubscribed");
+        if d.ops.values().any(|o| o.th != 0 && matches!(d.op(o.th, o.ix), Some(Op::Stop { .. }))) {
+            out.class("unsubscribe-racing-stop");
+        }
     }
     if scn.threads.iter().flatten().any(|o| matches!(o, Op::GateSignal { .. })) {
         out.class("held-until-producers-finished");
@@ -474,11 +496,11 @@ pub fn c10_check(scn: &Scenario, h: &History) -> Outcome {
 
 pub static C10: Profile = Profile {
     id: "C10",
-    rule: "proptest scenarios: a triple registered back-to-back in the prelude - direct D1, channeled C (capacity 1-4, each policy), direct D2 - optionally a second channeled subscriber; 1-3 producers; C's callback is gated (tokens released by a controller thread; under drop policies half of the gated cases hold C without any token until every producer has finished, which deadlocks if reducing waits for C) or stalls; unsubscribe(C) (twice) or stop() at a generated point. Oracle O-CHAN: C's calls all on one thread that is not the reducer context, a client thread or another channeled subscriber's thread; C's (state,action) stream vs D1's (equal prefix under BlockOnFull, in-order subsequence under drop policies, newest delivered under DropOldest); everything D2 saw before Inv(unsubscribe C) delivered before its Ret (flush); nothing after; all accepted actions reduced. Non-trivial = C lagged by >= capacity+1 notifications at some point AND the unsubscribe/stop came while an item was still queued for C; distinct by scenario hash.",
+    rule: "proptest scenarios: a triple registered back-to-back in the prelude - direct D1, channeled C (capacity 1-4, each policy), direct D2 - optionally a second channeled subscriber; 1-3 producers; C's callback is gated (tokens released by a controller thread; under drop policies half of the gated cases hold C without any token until every producer has finished, which deadlocks if reducing waits for C) or stalls; unsubscribe(C) (twice), stop(), or both racing on two threads, at a generated point. Oracle O-CHAN: C's calls all on one thread that is not the reducer context, a client thread or another channeled subscriber's thread; C's (state,action) stream vs D1's (equal prefix under BlockOnFull, in-order subsequence under drop policies, newest delivered under DropOldest); everything D2 saw before Inv(unsubscribe C) delivered before its Ret (flush); nothing after; all accepted actions reduced. Non-trivial = C lagged by >= capacity+1 notifications at some point AND the unsubscribe/stop came while an item was still queued for C; distinct by scenario hash.",
     raw: raw3,
     build: c10_build,
     check: c10_check,
-    budget: Budget { r_cases: (1500, 20000), s_cases: (2000, 10000), s_scheds: (16, 64) },
+    budget: Budget { r_cases: (3000, 20000), s_cases: (4000, 10000), s_scheds: (16, 64) },
     liveness: true,
     enumerate: None,
     extra: None,
@@ -652,7 +674,7 @@ pub static C14: Profile = Profile {
     raw: raw3,
     build: c14_build,
     check: c14_check,
-    budget: Budget { r_cases: (1500, 20000), s_cases: (2000, 10000), s_scheds: (16, 64) },
+    budget: Budget { r_cases: (3000, 20000), s_cases: (4000, 10000), s_scheds: (16, 64) },
     liveness: true,
     enumerate: None,
     extra: None,
